@@ -231,6 +231,18 @@ def tagId : Tag → String
   | .setErrDup => "set-error-entry-duplicated"
   | .zeroLikeDropped => "zero-like-reloads-void"
 
+/-- attribution of a visible deviation: the most specific mechanism exercised in the step -/
+def tagPrio : Tag → Nat
+  | .u32delDeadlock => 0 | .u32delNonSlice => 1 | .hiddenSlice => 2 | .voidNoClear => 3 | .sliceMerge => 4
+  | .incFailTrace => 5 | .inflightReuse => 6 | .tsSubSecond => 7 | .metaNoCompare => 8 | .setErrDup => 9
+  | .arekPrecondition => 10 | .countPrecondition => 11 | .zeroLikeDropped => 12 | .emptyLive => 13
+  | .stickyFlags => 14
+
+def pickTag (tags : List Tag) : Option Tag :=
+  tags.foldl (fun best t => match best with
+    | none => some t
+    | some b => if tagPrio t < tagPrio b then some t else some b) none
+
 /-! ### stepping -/
 
 /-- which deviations a domain reports -/
@@ -270,8 +282,8 @@ def stepReq (d : DState) (f : List String) : DState × String :=
         | .c06 => decide (sp.2 ≠ o.r) || decide (sp.1 ≠ after)
         | .c05 => false
         | .c30 => false
-    let tag := (o.tags.find? (· == Tag.u32delDeadlock)) <|> o.tags.head? <|> d.lastTag
-    let lastTag := match o.tags.head? with | some t => some t | none => d.lastTag
+    let tag := pickTag o.tags <|> d.lastTag
+    let lastTag := match pickTag o.tags with | some t => some t | none => d.lastTag
     let flag := if dev then "\t#F:" ++ d.pid ++ "-" ++ (match tag with | some t => tagId t | none => "unattributed") else ""
     ({ d with s := o.s, ck := ck, lastTag := lastTag, opNo := opNo }, showResp ck verb o.r ++ flag)
 
